@@ -305,12 +305,14 @@ func (c *Collection) PullID(ctx context.Context, id string, opts ...ReadOption) 
 	}
 
 	send := make(chan *ValueChange)
+	// make sure the underlying Pull ends when we do, otherwise it blocks writers once nobody is receiving from it
+	ctx, cancel := context.WithCancel(ctx)
+	// subscribe before returning, otherwise changes made right after this call returns could be missed
+	changes := c.Pull(ctx, opts...)
 	go func() {
 		defer close(send)
-		// make sure the underlying Pull ends when we do, otherwise it blocks writers once nobody is receiving from it
-		ctx, cancel := context.WithCancel(ctx)
 		defer cancel()
-		for change := range c.Pull(ctx, opts...) {
+		for change := range changes {
 			if change.Id != id {
 				continue
 			}
